@@ -127,12 +127,67 @@ func storeRoot(v ssa.Value) ssa.Value {
 			v = x.X
 		case *ssa.IndexAddr:
 			v = x.X
+			if u, ok := v.(*ssa.UnOp); ok && u.Op == token.MUL {
+				// element of a slice held in a field of a local object
+				if r := storeRoot(u.X); r != nil {
+					return r
+				}
+			}
 		case *ssa.Alloc, *ssa.MakeSlice, *ssa.MakeMap:
 			return x
 		default:
 			return nil
 		}
 	}
+}
+
+// elemOnlyWrites: for each local root, whether every write inside the loop goes to a slice/array *element*
+// (some path containing an index), in which case lengths of the slices inside the object are unchanged.
+func elemOnlyWrites(l *loop) map[ssa.Value]bool {
+	out := map[ssa.Value]bool{}
+	note := func(addr ssa.Value) {
+		hasIdx := false
+		a := addr
+		for {
+			switch x := a.(type) {
+			case *ssa.FieldAddr:
+				a = x.X
+				continue
+			case *ssa.IndexAddr:
+				// an index step through a slice held in a field: addr chain is IndexAddr(load(FieldAddr(root)))
+				hasIdx = true
+				if u, ok := x.X.(*ssa.UnOp); ok {
+					a = u.X
+				} else {
+					a = x.X
+				}
+				continue
+			}
+			break
+		}
+		r := storeRoot(a)
+		if r == nil {
+			if al, ok := a.(*ssa.Alloc); ok {
+				r = al
+			}
+		}
+		if r == nil {
+			return
+		}
+		if prev, seen := out[r]; seen {
+			out[r] = prev && hasIdx
+		} else {
+			out[r] = hasIdx
+		}
+	}
+	for b := range l.blocks {
+		for _, in := range b.Instrs {
+			if st, ok := in.(*ssa.Store); ok {
+				note(st.Addr)
+			}
+		}
+	}
+	return out
 }
 
 // modifiedRoots lists local roots written inside the loop.
@@ -283,12 +338,13 @@ func (e *Exec) loopHeader(b *ssa.BasicBlock, preds []*ssa.BasicBlock) {
 	if unknown {
 		// a store we cannot attribute; the store itself will be flagged when reached
 	}
+	elemOnly := elemOnlyWrites(l)
 	for _, r := range roots {
 		c, ok := e.root().cells[r]
 		if !ok {
 			continue // allocated inside the loop
 		}
-		e.cur[c] = e.havocCell(c)
+		e.cur[c] = e.havocCellW(c, elemOnly[r])
 	}
 
 	var K Term
@@ -351,6 +407,28 @@ func (e *Exec) loopHeader(b *ssa.BasicBlock, preds []*ssa.BasicBlock) {
 		}
 	}
 
+	// bound from the loop guard: every earlier iteration passed the header test `i < n` (n loop-invariant)
+	if ind != nil && K != "" {
+		if iff, ok := b.Instrs[len(b.Instrs)-1].(*ssa.If); ok && l.blocks[b.Succs[0]] && !l.blocks[b.Succs[1]] {
+			if cmp, ok := iff.Cond.(*ssa.BinOp); ok && cmp.Op == token.LSS && cmp.Block() == b {
+				inc := headerInc(l, ind)
+				var lhs Term
+				if cmp.X == ind {
+					lhs = "(- " + K + " 1)"
+				} else if inc != nil && cmp.X == inc {
+					lhs = K
+				}
+				yDefinedOutside := true
+				if yi, ok := cmp.Y.(ssa.Instruction); ok && l.blocks[yi.Block()] {
+					yDefinedOutside = false
+				}
+				if lhs != "" && yDefinedOutside {
+					e.assume(implies(and(reach, "(< "+initT+" "+K+")"), "(< "+lhs+" "+e.term(cmp.Y)+")"))
+				}
+			}
+		}
+	}
+
 	// auto-summary
 	if K != "" {
 		cont, ok := e.contOf(l, ind, nx)
@@ -372,6 +450,17 @@ func (e *Exec) loopHeader(b *ssa.BasicBlock, preds []*ssa.BasicBlock) {
 			}
 			q := fmt.Sprintf("(forall (%s) (=> (and %s (<= %s %s) (< %s %s)) %s))", strings.Join(ps, " "), reach, lo, j, j, hi, body)
 			e.g.assert(q)
+			// the previous iteration (if any) continued: an instance the solver often needs for bounds of K
+			{
+				prev := "(- " + K + " 1)"
+				if shift == 1 {
+					prev = K
+				}
+				inst := implies(and(reach, "(< "+initT+" "+K+")"), strings.ReplaceAll(cont, "@J@", prev))
+				if len(e.bound) == 0 {
+					e.g.assert(inst)
+				}
+			}
 			if len(e.bound) == 0 {
 				for _, c := range e.root().goalSk {
 					e.g.assert(implies(and(reach, "(<= "+lo+" "+c+")", "(< "+c+" "+hi+")"), strings.ReplaceAll(cont, "@J@", c)))
@@ -455,7 +544,7 @@ func (e *Exec) contOf(l *loop, ind *ssa.Phi, nx *ssa.Next) (Term, bool) {
 	roots, _ := modifiedRoots(l)
 	for _, r := range roots {
 		if c, ok := e.root().cells[r]; ok {
-			child.cur[c] = child.havocCell(c)
+			child.cur[c] = child.havocCellW(c, elemOnlyWrites(l)[r])
 		}
 	}
 	if nx != nil {
@@ -479,6 +568,41 @@ func (e *Exec) contOf(l *loop, ind *ssa.Phi, nx *ssa.Next) (Term, bool) {
 
 // havocCell forgets what a loop may have written into a cell.  A cell made by `make([]T, n)` can only
 // be changed element-wise, so its length, offset and nil-ness are kept.
+// havocCellW: when the loop only writes elements, the fresh content keeps every slice length of the old one.
+func (e *Exec) havocCellW(c *cell, elemOnly bool) Term {
+	t := e.havocCell(c)
+	if !elemOnly || c.kind == "slice" {
+		return t
+	}
+	old := e.cellGet(c)
+	for _, eq := range e.sameLens(old, t, c.typ, 0) {
+		e.assume(eq)
+	}
+	return t
+}
+
+// sameLens: equalities between the lengths (and nil-ness, offsets) of all slices reachable through struct fields.
+func (e *Exec) sameLens(a, b Term, t types.Type, depth int) []Term {
+	if depth > 3 {
+		return nil
+	}
+	switch tt := t.Underlying().(type) {
+	case *types.Slice:
+		s := e.g.sortOf(t)
+		return []Term{fmt.Sprintf("(and (= (len_%s %s) (len_%s %s)) (= (off_%s %s) (off_%s %s)) (= (nil_%s %s) (nil_%s %s)))", s, a, s, b, s, a, s, b, s, a, s, b)}
+	case *types.Struct:
+		_, nt := structOf(t)
+		s := e.g.sortOf(nt)
+		var out []Term
+		for i := 0; i < tt.NumFields(); i++ {
+			acc := e.g.fieldAcc(s, tt.Field(i).Name())
+			out = append(out, e.sameLens("("+acc+" "+a+")", "("+acc+" "+b+")", tt.Field(i).Type(), depth+1)...)
+		}
+		return out
+	}
+	return nil
+}
+
 func (e *Exec) havocCell(c *cell) Term {
 	srt := e.g.sortOf(c.typ)
 	if c.kind == "slice" {
@@ -522,6 +646,32 @@ func (e *Exec) invExpr(x *Expr, head *ssa.BasicBlock, phiVals map[*ssa.Phi]Term,
 				continue
 			}
 			env.vars[name] = typedTerm{t: e.peekTerm(x, v.Type()), typ: v.Type()}
+		}
+	}
+	// join-point phis outside loop headers (a local assigned on several paths before the loop), when the name is unambiguous
+	cnt := map[string]int{}
+	for _, b := range e.fn.Blocks {
+		for _, in := range b.Instrs {
+			if phi, ok := in.(*ssa.Phi); ok && phi.Comment != "" {
+				cnt[phi.Comment]++
+			}
+		}
+	}
+	for _, b := range e.fn.Blocks {
+		if e.loops.header[b] != nil {
+			continue
+		}
+		for _, in := range b.Instrs {
+			phi, ok := in.(*ssa.Phi)
+			if !ok || phi.Comment == "" || cnt[phi.Comment] != 1 {
+				continue
+			}
+			if _, taken := env.vars[phi.Comment]; taken {
+				continue
+			}
+			if x, ok := e.lookup(phi); ok && b.Dominates(head) {
+				env.vars[phi.Comment] = typedTerm{t: e.peekTerm(x, phi.Type()), typ: phi.Type()}
+			}
 		}
 	}
 	for _, in := range head.Instrs {
